@@ -11,6 +11,7 @@ package main
 //       t                                                                        Comp.Tick()
 //       o <k>                                                                    retrieve up to k responses
 //       q                                                                        tick+drain until quiet
+//       i                                                                        dump every bank's inOrder list (c17_w.go)
 // answer = canonical trace (requests numbered by acceptance order) + hash of the final storage
 // contents over all footprints.  The oracle (flat byte array, arrival order) is evaluated here on the
 // real outputs, independent of the Lean model.
@@ -267,6 +268,8 @@ func (e *c17Env) op(toks []string) {
 		e.out = append(e.out, "o["+strings.Join(e.drain(k), ",")+"]")
 	case "q":
 		e.quiesce()
+	case "i":
+		e.out = append(e.out, c17ShowInOrder(e))
 	}
 }
 
